@@ -15,6 +15,12 @@ decoders for requests and for produce / metadata responses, and the property-lev
       Route  k produce requests through KafkaSerializerSink -> KafkaTransportSink opened over a fake socket
              on the virtual loop, replies put on the connection in a scripted order (some requests
              unanswered, one reply with an unknown correlation id) -> what each request's sink stack received
+      retry  the full client built by Kafka.NewBuilder() (dispatcher, KafkaRouterSink, heap balancer,
+             KafkaSerializerSink, shared sink, resurrector, KafkaTransportSink over the real ScalesSocket)
+             on an in-memory network; the broker answers the first transmission(s) of a produce request with
+             a retriable error (3, 6, 8) or drops the connection, so the router re-sends the SAME message;
+             EVERY buffer the client writes to a connection (metadata requests, first transmissions and
+             retries) is recorded as a Hdr / Req record and judged by the same request clauses
 The response bytes come from the small broker-side encoder below (written from the Kafka protocol guide,
 struct.pack only); they are decoded by the SPEC's decoder inside TLC and compared there with what the real
 code returned.  There is no Python oracle.
@@ -220,6 +226,27 @@ def _route_script(rng):
           'batch': rng.choice([1, 1, 2, 99])}
 
 
+def _retry_script(rng, i):
+  """A small cluster, a few sequential Put()s; per Put the fate of its successive produce requests."""
+  nb = rng.choice([1, 1, 2, 3])
+  brokers = [[n + 1, list(('broker%d' % (n + 1)).encode()), 9092 + n] for n in range(nb)]
+  topics = []
+  for name in _distinct(rng, rng.choice([1, 1, 2]), lambda: _name(rng, 'ascii') or [116]):
+    np_ = rng.choice([1, 1, 1, 2, 3])
+    pids = _distinct(rng, np_, lambda: rng.choice([0, 1, 2, 7, 255, 65536]))
+    topics.append([name, [[p, rng.choice(brokers)[0]] for p in pids]])
+  fates = [[], [6], [3], [8], [6], ['drop'], [6, 6], [3, 8], [7], ['drop', 6]]
+  puts = []
+  for j in range(rng.choice([2, 3, 4])):
+    t = rng.choice(topics)
+    puts.append({'topic': t[0], 'payloads': _payloads(rng, 'big' if rng.random() < 0.1 else 'small'),
+                 'acks': rng.choice([-1, 0, 1, 1, 2]), 'acks_kw': rng.random() < 0.5,
+                 'fate': fates[(i + j) % len(fates)] if j > 0 or i % 3 == 0 else rng.choice(fates),
+                 'gap_ms': rng.choice([0, 0, 50, 2000, 11000])})
+  return {'mode': 'retry', 'cls': 'retry', 'brokers': brokers, 'topics': topics, 'puts': puts,
+          'timeout': rng.choice([3, 5]), 'rnd': rng.randint(0, 1 << 30)}
+
+
 def cases(prop, tier, seed):
   rng = random.Random(104729 * int(seed) + 15)
   mult = 1 if tier == 'quick' else 4       # thorough: 4x the traces, 3x the records per trace
@@ -254,6 +281,8 @@ def cases(prop, tier, seed):
     out.append({'mode': 'direct', 'cls': 'mresp', 'recs': [_mresp_rec(rng) for _ in range(per)]})
   for c in range(40 * (1 if tier == 'quick' else 10)):
     out.append(_route_script(rng))
+  for c in range(60 * (1 if tier == 'quick' else 10)):
+    out.append(_retry_script(rng, c))
   return out
 
 
@@ -495,10 +524,210 @@ def _run_route(script, loop):
   return ev, {'mode': 'route', 'errors': [repr(x[1:3]) for x in loop.errors][:3]}
 
 
+class _Net(object):
+  """In-memory network + brokers for the retry mode.  Every buffer a client connection writes is kept
+  verbatim (that is the request frame as the client framed it); the broker reads the api key, the
+  correlation id and (for its produce reply) topic and partition at their fixed places with its own
+  reader, independent of the size prefix, and answers on the same connection."""
+
+  def __init__(self, script):
+    self.script = script
+    self.conns = []
+    self.log = []             # [conn index, bytes written]
+    self.fate = []            # fate of the successive produce requests of the current Put
+    self.next_offset = 100
+
+  def metadata(self, corr):
+    by_id = dict((b[0], b) for b in self.script['brokers'])
+    topics = [[0, name, [[0, pid, leader, [leader], [leader]] for pid, leader in parts]]
+              for name, parts in self.script['topics']]
+    return broker_metadata_response(corr, [by_id[i] for i in sorted(by_id)], topics)
+
+  def on_write(self, conn, data):
+    self.log.append([conn.index, data])
+    if len(data) < 12:
+      return
+    api, = struct.unpack('!h', data[4:6])
+    corr = broker_read_correlation_id(data)
+    if api == 3:
+      msg = self.metadata(corr)
+    elif api == 0:
+      try:
+        cl, = struct.unpack('!h', data[12:14])
+        p = 14 + cl + 2 + 4 + 4
+        tl, = struct.unpack('!h', data[p:p + 2])
+        topic = list(bytearray(data[p + 2:p + 2 + tl]))
+        partition, = struct.unpack('!i', data[p + 2 + tl + 4:p + 2 + tl + 8])
+      except struct.error:
+        return                                   # nothing sensible to answer
+      f = self.fate.pop(0) if self.fate else 0
+      if f == 'drop':
+        conn.peer_close()
+        return
+      self.next_offset += 1
+      msg = broker_produce_response(corr, [[topic, [[partition, f, -1 if f else self.next_offset]]]])
+    else:
+      return
+    conn.deliver(struct.pack('!i', len(msg)) + msg)
+
+
+def _make_gsocket(net):
+  from gevent.event import Event
+
+  class FakeGSocket(object):
+    def __init__(self, *a, **kw):
+      self.rbuf = b''
+      self.ev = Event()
+      self.closed = False
+      self.eof = False
+      self.index = len(net.conns)
+      self.addr = None
+      net.conns.append(self)
+
+    def connect(self, addr):
+      self.addr = addr
+
+    def setsockopt(self, *a):
+      pass
+
+    def close(self):
+      self.closed = True
+      self.ev.set()
+
+    def peer_close(self):
+      self.eof = True
+      self.ev.set()
+
+    def deliver(self, data):
+      self.rbuf += data
+      self.ev.set()
+
+    def sendall(self, data):
+      if self.closed or self.eof:
+        raise IOError('connection closed')
+      net.on_write(self, bytes(data))
+
+    def send(self, data):
+      self.sendall(data)
+      return len(data)
+
+    def recv(self, n):
+      while not self.rbuf:
+        if self.closed or self.eof:
+          return b''
+        self.ev.clear()
+        self.ev.wait()
+      r, self.rbuf = self.rbuf[:n], self.rbuf[n:]
+      return r
+
+    def recv_into(self, view, n=0):
+      data = self.recv(n or len(view))
+      view[:len(data)] = data
+      return len(data)
+
+  return FakeGSocket
+
+
+def _drive(loop, until, chunk=5000, max_chunks=400):
+  """Run the virtual loop up to time `until`.  Unlike loop.run_until this also lets time pass while the
+  code spins at one instant (a sleep(0) retry loop starves no timer on a real clock): after `chunk` quanta
+  without quiescence the clock moves to the next timer, which is fired ahead of the queued callbacks."""
+  chunks = 0
+  while chunks < max_chunks:
+    r = loop.step(chunk)
+    nxt = loop.next_timer_at()
+    if r == 'idle':
+      if nxt is None or nxt > until:
+        break
+      loop.advance_to(nxt)
+      continue
+    chunks += 1
+    if loop.now() >= until:
+      break
+    loop.advance_to(min(nxt, until) if nxt is not None else until)
+    while loop.step_timer() != 'idle':
+      pass
+  loop.advance_to(until)
+  return chunks
+
+
+def _run_retry(script, loop):
+  import socket as _socket
+  import gevent
+  import scales.scales_socket as ss
+  import scales.loadbalancer.base as lbbase
+  import scales.loadbalancer.heap as lbheap
+  from scales.kafka.builder import Kafka
+  from scales.kafka.sink import KafkaTransportSink
+  net = _Net(script)
+  ss.gsocket = _make_gsocket(net)
+  ss.ScalesSocket._resolveAddr = lambda self: [(_socket.AF_INET, _socket.SOCK_STREAM, 0, '', (self.host, self.port))]
+  rnd = random.Random(script['rnd'])
+  lbbase.random = rnd
+  lbheap.random = rnd
+  cid = _client_id(KafkaTransportSink)
+  b0 = script['brokers'][0]
+  uri = 'tcp://%s:%d' % (bytes(bytearray(b0[1])).decode(), b0[2])
+  client = Kafka.NewBuilder().SetUri(uri).SetTimeout(script['timeout']).Build()
+  loop.settle()
+  parts_of = dict((bytes(bytearray(n)), [p for p, _ in ps]) for n, ps in script['topics'])
+  ev = []
+  outcomes = []
+  busy = 0
+  resent = 0
+  earlier = []
+
+  def _inputs(put):
+    plist = parts_of.get(_b(put['topic']), [])
+    return {'topic': put['topic'], 'partition': plist[0] if len(plist) == 1 else -1, 'acks': put['acks'],
+            'payloads': put['payloads']}
+
+  for put in script['puts']:
+    if put['gap_ms']:
+      busy += _drive(loop, loop.now() + put['gap_ms'] / 1000.0)
+    net.fate = list(put['fate'])
+    n0 = len(net.log)
+    topic = _b(put['topic'])
+    payloads = [_b(x) for x in put['payloads']]
+    box = {}
+
+    def call():
+      try:
+        if put['acks_kw']:
+          box['ret'] = client.Put(topic, payloads, acks=put['acks'])
+        else:
+          box['ret'] = client.Put(topic, payloads, put['acks'])
+      except BaseException as ex:
+        box['exc'] = type(ex).__name__
+    g = gevent.spawn(call)
+    busy += _drive(loop, loop.now() + script['timeout'] + 1)
+    if not g.dead:
+      g.kill(block=False)
+      loop.step(1000)
+      box.setdefault('exc', 'harness-still-running')
+    outcomes.append(box.get('exc') or 'ok')
+    for ci, data in net.log[n0:]:
+      api = struct.unpack('!h', data[4:6])[0] if len(data) >= 6 else -1
+      corr = broker_read_correlation_id(data) if len(data) >= 12 else 0
+      if api == 0 or api == -1:
+        ev.append(dict(_inputs(put), e='ReqR', alts=list(reversed(earlier)), corr=corr, cid=cid,
+                       frame=list(bytearray(data)), braised='none', hraised='none'))
+      else:
+        ev.append({'e': 'Hdr', 'api': api, 'corr': corr, 'cid': cid, 'frame': list(bytearray(data)),
+                   'braised': 'none', 'hraised': 'none'})
+    earlier.append(_inputs(put))
+    nprod = sum(1 for _, d in net.log[n0:] if d[4:6] == b'\x00\x00')
+    resent += max(0, nprod - 1)
+  return ev, {'mode': 'retry', 'retransmissions': resent, 'outcomes': outcomes, 'connections': len(net.conns), 'busy_chunks': busy,
+              'errors': [repr(x[1:3])[:200] for x in loop.errors][:3]}
+
+
 def run_case(script):
   loop = common.boot()
   if script['mode'] == 'route':
     ev, meta = _run_route(script, loop)
+  elif script['mode'] == 'retry':
+    ev, meta = _run_retry(script, loop)
   else:
     ev, meta = _run_direct(script, loop)
   return {'cfg': {'mode': script['mode'], 'cls': script.get('cls', '')}, 'ev': ev, 'meta': meta}
@@ -516,7 +745,7 @@ def witness(prop, t, consumed, clause):
     return {}
   e = t['ev'][consumed]
   w = {'kind': e['e']}
-  if e['e'] in ('Req', 'Hdr'):
+  if e['e'] in ('Req', 'ReqR', 'Hdr'):
     w['header_raised'] = e['hraised']
   return w
 
@@ -529,10 +758,11 @@ def extra_coverage(prop, tier, traces):
   for t in traces:
     for e in t['ev']:
       kinds[e['e']] = kinds.get(e['e'], 0) + 1
-      if e['e'] == 'Req':
+      if e['e'] in ('Req', 'ReqR'):
         corr.add(e['corr'])
         for p in e['payloads']:
           payload_bytes += len(p)
           max_payload = max(max_payload, len(p))
-  return {'records': sum(kinds.values()), 'records_by_kind': kinds, 'payload_bytes_crc_checked': payload_bytes,
+  return {'records': sum(kinds.values()), 'records_by_kind': kinds,
+          'retransmitted_requests_judged': sum(t.get('meta', {}).get('retransmissions', 0) for t in traces), 'payload_bytes_crc_checked': payload_bytes,
           'max_payload': max_payload, 'distinct_correlation_ids': len(corr)}
